@@ -193,9 +193,7 @@ theorem nf_canonKw : (e : Expr) → nf e = true → nf (canonKw e) = true
     simp only [canonKw, nf, nf_canonKw e h.1, isIdentOrPath_canonKw, Bool.true_and]; exact h.2
   | .index e none i, h => by
     simp only [nf, Bool.and_eq_true] at h
-    simp only [canonKw, nf, nf_canonKw e h.1.1, nf_canonKw i h.1.2, startsPosKw_congr (head_yield_canonKw i),
-      Bool.true_and]
-    exact h.2
+    simp [canonKw, nf, nf_canonKw e h.1, nf_canonKw i h.2]
   | .index e (some (k, sp)) i, h => by
     simp only [nf, Bool.and_eq_true] at h
     simp [canonKw, nf, nf_canonKw e h.1.1, nf_canonKw i h.1.2, posKwName_str]
